@@ -45,6 +45,47 @@ theorem contract_leq (x y : IView) (hx : x.WF) (hy : y.WF) :
     rw [IView.vmin_agree hxT hd]
     exact (IView.resp y _ hyT).1 _ d1 d2 hd
 
+/-! ### neq (since fix: NotEquals fails when both sides are fixed to the same value) -/
+
+theorem contract_neq (x y : IView) (hx : x.WF) (hy : y.WF) :
+    Contract (prune (.neq x y)) (fun a => holds a (.neq x y) = true) (triggers (.neq x y)) := by
+  have hxT : x.UnderIn (triggers (.neq x y)) := underIn_of _ _ (fun i h => List.mem_append.2 (Or.inl h))
+  have hyT : y.UnderIn (triggers (.neq x y)) := underIn_of _ _ (fun i h => List.mem_append.2 (Or.inr h))
+  refine ⟨?_, ?_, ?_, ?_⟩
+  · intro c a hm hs
+    have hs : x.eval a ≠ y.eval a := by simpa [holds] using hs
+    have bx := x.bounds hx hm
+    have by' := y.bounds hy hm
+    refine ⟨c, ?_, hm⟩
+    simp only [prune]
+    rw [if_neg]
+    rintro ⟨h1, h2, h3⟩
+    simp only [IView.vmin, IView.vmax] at h1 h2 h3
+    omega
+  · intro c c' h
+    simp only [prune] at h
+    split at h
+    · cases h
+    · cases h; exact Good.refl _ _
+  · intro c c' a hf hm h
+    simp only [prune] at h
+    have bx := x.bounds_fixed hm (fixedOn_view hf hxT)
+    have by' := y.bounds_fixed hm (fixedOn_view hf hyT)
+    simp only [holds, bne_iff_ne, ne_eq]
+    intro heq
+    split at h
+    · cases h
+    · rename_i hn
+      apply hn
+      simp only [IView.vmin, IView.vmax]
+      omega
+  · intro c1 c2 hag
+    simp only [prune]
+    rw [IView.vmin_agree hxT hag, IView.vmax_agree hxT hag, IView.vmin_agree hyT hag, IView.vmax_agree hyT hag]
+    split
+    · exact RelO.none
+    · exact RelO.some hag
+
 /-! ### eq -/
 
 theorem contract_eq (x y : IView) (hx : x.WF) (hy : y.WF) :
